@@ -32,6 +32,9 @@ def docs(ctx):
         out.append({k: [10, {k: "x", "z": [k]}] for k in ch})
         out.append([{k: j} for j, k in enumerate(ch)] + [[1, 2, 3]])
     out.append({"1": "one", "-1": "neg", "01": "lead", "a": ["x", "y", "z"], "0": {"0": 0}})
+    # members whose names are a sibling's name behind `~` / `#` (the pointer extensions' prefixes), with nodes strictly below them
+    out.append({"": 0, "~": {"a": 1, "": [2]}, "a": [1], "~a": {"x": [1, {"y": 2}]}, "#id": {"k": [1]}, "id": 3, "#": {"z": [1]}, "#a": [[0]]})
+    out.append([{"": 0, "~": [1, {"~": 2}]}, {"0": 1, "#0": {"0": 2}, "~0": [3]}])
     for _ in range(30 if ctx.tier == "quick" else 400):
         d = G.random_doc(ctx.rng, 4, keys=KEYS, width=4)
         if isinstance(d, (dict, list)):
@@ -46,7 +49,7 @@ def gen(ctx):
              # slices whose explicit bounds lie outside the array, in both directions
              "$..[5::-1]", "$..[9:0:-2]", "$..[2::-1]", "$..[1::-1]", "$..[-9:9]", "$..[:-9:-1]", "$..[3:]", "$..[-1:-9:-1]", "$[1::-1]", "$[7::-3]"]
     for d in ds:
-        for q in (fixed if ctx.tier != "quick" else ctx.rng.sample(fixed, 6)):
+        for q in (fixed if ctx.tier != "quick" else fixed[:3] + ctx.rng.sample(fixed[3:], 5)):       # every node of every document, always
             cases.append({"text": q, "doc": d})
     for _ in range(200 if ctx.tier == "quick" else 4000):
         ast = qgen.gen_path(ctx.rng, names=KEYS, allow_filter=False)
